@@ -53,3 +53,12 @@ pub assume_specification<T: Ord>[ std::cmp::max::<T> ](a: T, b: T) -> (r: T)
 // Cow::from(&str): "Converts a string slice into a Borrowed variant. No heap allocation is performed, and the string is not copied."
 pub assume_specification<'a>[ <Cow<'a, str> as From<&'a str>>::from ](s: &'a str) -> (r: Cow<'a, str>)
     ensures cow_view(&r) == s@;
+// String == &str / String == str: "This impl is equivalent to comparing the string contents."
+pub assume_specification<'a>[ <String as PartialEq<&'a str>>::eq ](a: &String, b: &&str) -> (r: bool)
+    ensures r == (a@ == b@);
+pub assume_specification<'a>[ <String as PartialEq<&'a str>>::ne ](a: &String, b: &&str) -> (r: bool)
+    ensures r == (a@ != b@);
+// usize::ilog10: "Panics: This function will panic if self is zero."
+pub assume_specification[ usize::ilog10 ](n: usize) -> (r: u32)
+    requires n > 0,
+    ensures r <= 19;
